@@ -2,7 +2,7 @@
  * @props C02 C10 C03 C14
  * @tier quick
  * @functions ZSTD_decompressStream ZSTD_decompressContinueStream ZSTD_nextSrcSizeToDecompressWithInputSize ZSTD_nextSrcSizeToDecompress ZSTD_nextInputType ZSTD_isSkipFrame ZSTD_limitCopy ZSTD_checkOutBuffer
- * @bounds ONE call of the streaming decoder from an ARBITRARY mid-frame state satisfying the stream invariant I_d (inductive step => any call history, any segmentation): stream stage read / load / flush (one instance each); frame stage block header / block (raw, RLE, compressed; last or not) / checksum / skippable content; any partially loaded input, any partially flushed output; block size limit 4..8 (production: 1 KiB..128 KiB; the stream layer is generic in it), window 1..2 block sizes, content size unknown or any value <= 40; internal buffers of any size allowed by the sizing rule; per call 0..(block + 4) new input bytes, output room 0..(block + 8), at most 3 (stable output) / 2 (buffered output) invocations of the frame decoder inside the call (further iterations of the same loop start again from states satisfying I_d); buffered output (instance buf) or stable output buffer (instance stable)
+ * @bounds ONE call of the streaming decoder from an ARBITRARY mid-frame state satisfying the stream invariant I_d (inductive step => any call history, any segmentation): stream stage read / load / flush (one instance each); frame stage block header / block (raw, RLE, compressed; last or not) / checksum / skippable content; any partially loaded input, any partially flushed output; block size limit 4..8 (production: 1 KiB..128 KiB; the stream layer is generic in it), window 1..2 block sizes, content size unknown or any value <= 40; internal buffers of any size allowed by the sizing rule; per call 0..(block + 4) new input bytes, output room 0..(block + 8), at most 3 (stable output) / 2 (buffered output) invocations of the frame decoder inside the call (further iterations of the same loop start again from states satisfying I_d); stable output buffer (quick instances) or buffered output (thorough instances: 16-20 min each)
  * @assume ZSTD_decompressContinue is a CONTRACT stub (definition line renamed in a scratch copy): it must be fed exactly the size it asked for, from readable memory, with a writable destination of the announced capacity; it then fails or produces at most min(block size limit, content still missing) bytes and moves the frame to ANY next state allowed by I_d (including end of frame); raw blocks may be consumed piecewise as the real decoder allows
  * @assume I_d (established by the header stage, c14.dstream_header, and re-proved here as post-condition): input buffer >= max(block size limit, 4); 0 <= outStart <= outEnd <= output buffer size; outside the flush stage nothing is pending (outStart == outEnd) and in the read / flush stages no input is buffered; output buffer >= min(content size, window + 2 blocks + 64) (ZSTD_decodingBufferSize_internal); if the whole frame fits the output buffer, outEnd equals the number of bytes decoded so far, otherwise outside the flush stage a full block still fits behind outStart; amounts expected by the frame stage never exceed the block size limit (4 for the checksum)
  * @bounds decided: memory safety of every internal copy; the decoder is always fed exactly what it asked for, contiguously from the caller's input or from the internal buffer; the "should never happen" internal-buffer error is unreachable; a block is always given room for min(block size limit, missing content) bytes, so a valid frame never fails for lack of internal room; consumed input = bytes decoded directly + bytes newly buffered; output appears only by flushing the internal buffer in order (buffered mode); a call returns with unflushed output only when the caller's room is exhausted; with input available for the next step and room to flush, a call makes progress; the returned hint is the amount still needed for the next step (+ the next block header); I_d holds again afterwards
@@ -15,11 +15,11 @@
  * @cbmc --unwind 10
  * @timeout 900
  * @memgb 14
- * @instance buf_read timeout=1800 cbmc="--unwind 7" -DOUT_STABLE=0 -DSS0=zdss_read -DMAXCALLS=2
- * @instance buf_load timeout=1800 cbmc="--unwind 7" -DOUT_STABLE=0 -DSS0=zdss_load -DMAXCALLS=2
- * @instance buf_flush timeout=1800 cbmc="--unwind 7" -DOUT_STABLE=0 -DSS0=zdss_flush -DMAXCALLS=2
- * @instance stable_read -DOUT_STABLE=1 -DSS0=zdss_read
- * @instance stable_load -DOUT_STABLE=1 -DSS0=zdss_load
+ * @instance stable_read -DOUT_STABLE=1 -DSS0=zdss_read -DSS_READ=1
+ * @instance stable_load -DOUT_STABLE=1 -DSS0=zdss_load -DSS_LOAD=1
+ * @instance buf_read tier=thorough timeout=2400 -DOUT_STABLE=0 -DSS0=zdss_read -DSS_READ=1 -DMAXCALLS=2
+ * @instance buf_load tier=thorough timeout=2400 -DOUT_STABLE=0 -DSS0=zdss_load -DSS_LOAD=1 -DMAXCALLS=2
+ * @instance buf_flush tier=thorough timeout=2400 -DOUT_STABLE=0 -DSS0=zdss_flush -DSS_FLUSH=1 -DMAXCALLS=2
  */
 #include "v.h"
 #include <string.h>
@@ -180,11 +180,15 @@ void harness(void)
                 VCHECKM(r == d->expected + (d->stage == ZSTDds_decompressBlock ? ZSTD_blockHeaderSize : 0) - d->inPos, "the returned hint is what the next step still needs (plus the following block header)");
             }
             VWITNESS(g_calls == MAXCALLS);
-            if (stage0 == zdss_load) VWITNESS(g_calls == 1 && g_buffered > 0 && buffered0 > 0);
+#ifdef SS_LOAD
+            VWITNESS(g_calls == 1 && g_buffered > 0 && buffered0 > 0);
+#endif
             VWITNESS(!g_frameEnded && d->streamStage == zdss_load && d->inPos > buffered0);
 #if !OUT_STABLE
             VWITNESS(!g_frameEnded && d->streamStage == zdss_flush);
+#ifdef SS_FLUSH
             VWITNESS(stage0 == zdss_flush && g_calls == 1 && d->outStart == 0 && pending0 > 0);      /* flush completed, buffer wrapped, next block decoded */
+#endif
 #endif
             VWITNESS(g_frameEnded);
         }
